@@ -192,6 +192,19 @@ def c11(ctx):
 
 
 PKT = "mon/MonPacket.tla"
+EXTM = "mon/MonExt.tla"
+
+
+def c14(ctx):
+    q = ctx.quick()
+    ctx.model("mc/MC_Ext.tla", "MC_Ext.cfg", workers=12)
+    ctx.sim("ext", 800 if q else 20000, EXTM, "MonExt_C14.cfg", subcmd="packet", batch=4000, conf=(EXTM, "MonExt_conf.cfg"))
+    ctx.sim("codec", 560 if q else 8000, LOOP, "MonLoop_C14.cfg", seed_off=1, nontrivial=has_genuine)
+    ctx.write_evidence("model_checking", "model: MC_Ext - the transcribed RFC 4884 splitter keeps the quoted datagram and the extension inside the message and disjoint for every length attribute 0..255 x message length 0..1016 x both word sizes, recovers compliant / legacy / plain messages, and object iteration is bounded; "
+                       "implementation: distinct messages built from abstract descriptions (family, TE/DU, form, original-datagram length incl. >= 256 octets, 0..3 objects, MPLS stacks of 0..4 members) parsed with the real views, 4 corruptions each, plus end-to-end sweeps through the real receive path in both extension modes compared with the router's ground truth",
+                       assumptions=LOOP_ASSUME + ["messages are produced by the independent builder in harness/vh/src/wire.rs (RFC 4884 sections 4-5, RFC 4950)",
+                                                  "a message with a zero length attribute and more than 132 octets after the ICMP header is read by the legacy convention (octets beyond 128 are the extension): that ambiguity is inherent to RFC 4884 and no claim is made for it"])
+
 
 
 def c12(ctx):
@@ -216,9 +229,9 @@ def c13(ctx):
                                     "for Paris datagrams outside the sampled subset the verification flag comes from the independent decoder, not from TLA"])
 
 
-PROPS = {"C12": c12, "C13": c13, "C02": c02, "C11": c11, "C05": c05, "C15": c15, "C19": c19, "C07": c07, "C01": c01, "C03": c03, "C06": c06, "C08": c08, "C09": c09, "C10": c10}
+PROPS = {"C14": c14, "C12": c12, "C13": c13, "C02": c02, "C11": c11, "C05": c05, "C15": c15, "C19": c19, "C07": c07, "C01": c01, "C03": c03, "C06": c06, "C08": c08, "C09": c09, "C10": c10}
 
-MONITOR_OF = {"C12": (PKT, "MonPacket_C12.cfg"), "C13": (PKT, "MonPacket_C13.cfg"), "C02": (LOOP, "MonLoop_C02.cfg"), "C11": (LOOP, "MonLoop_C11.cfg"), "C05": (STATE, "MonState_C05.cfg"), "C15": (STATE, "MonState_C15.cfg"), "C19": (STATE, "MonState_C19.cfg"), "C07": (LOOP, "MonLoop_C07.cfg"), "C01": (LOOP, "MonLoop_C01.cfg"), "C03": (LOOP, "MonLoop_C03.cfg"), "C06": (LOOP, "MonLoop_C06.cfg"),
+MONITOR_OF = {"C14": (LOOP, "MonLoop_C14.cfg"), "C12": (PKT, "MonPacket_C12.cfg"), "C13": (PKT, "MonPacket_C13.cfg"), "C02": (LOOP, "MonLoop_C02.cfg"), "C11": (LOOP, "MonLoop_C11.cfg"), "C05": (STATE, "MonState_C05.cfg"), "C15": (STATE, "MonState_C15.cfg"), "C19": (STATE, "MonState_C19.cfg"), "C07": (LOOP, "MonLoop_C07.cfg"), "C01": (LOOP, "MonLoop_C01.cfg"), "C03": (LOOP, "MonLoop_C03.cfg"), "C06": (LOOP, "MonLoop_C06.cfg"),
               "C08": (LOOP, "MonLoop_C08.cfg"), "C09": (LOOP, "MonLoop_C09.cfg"), "C10": (LOOP, "MonLoop_C10.cfg")}
 
 
